@@ -121,6 +121,44 @@ INVERSES = {12: inv_12_11, 11: inv_11_10, 21: inv_21_20, 20: inv_20_19, 19: inv_
 MIN_SYNTH = 10
 
 
+# shape-only inverses for the formats 5..9 (used by the conv kind only: the converter step is compared with the Lean
+# converter on a state of the right shape; no claim that these are the states the forward chain would reproduce)
+def inv_10_9(d):
+    for c in _conns(d):
+        for k_ in ("state", "error", "tls", "alpn_offers", "cipher_list"): c.pop(k_, None)
+    cc, sc = d["client_conn"], d["server_conn"]
+    cc.pop("sockname", None)
+    cl = cc.pop("certificate_list", None); cc["clientcert"] = cl[0] if cl else None
+    cl = sc.pop("certificate_list", None); sc["cert"] = cl[0] if cl else None
+    sc.pop("via2", None)
+    d["version"] = 9
+
+
+def inv_9_8(d):
+    if d.get("request"):
+        d["request"]["first_line_format"] = "relative"; d["request"].pop("authority", None)
+    d.pop("is_replay", None); d["version"] = 8
+
+
+def inv_8_7(d):
+    for m in ("request", "response"):
+        if d.get(m): d[m].pop("trailers", None)
+    d["version"] = 7
+
+
+def inv_7_6(d):
+    d["client_conn"].pop("tls_extensions", None); d["version"] = 6
+
+
+def inv_6_5(d):
+    for c in _conns(d):
+        c["ssl_established"] = c.pop("tls_established"); c["timestamp_ssl_setup"] = c.pop("timestamp_tls_setup")
+    d["version"] = 5
+
+
+SHAPE_INVERSES = {10: inv_10_9, 9: inv_9_8, 8: inv_8_7, 7: inv_7_6, 6: inv_6_5}
+
+
 def restrict_for(state, target):
     """make a current state representable at format version `target` (fields that did not exist then take the value the
     forward converter will write)"""
@@ -151,10 +189,10 @@ class Check(PropertyCheck):
                   "whole table + general lemmas): every historical version key reaches the current format in a strictly "
                   "version-increasing chain (the migrate loop terminates from every version value whatsoever), the current "
                   "version is a fixed point, unknown versions are rejected with 'please update' exactly for larger "
-                  "integers. The field surgery of the eleven converters for integer formats 10..20 is modelled over the tnetstring value type of C36 (Model/C38_Conv.lean) and proved to write exactly the next version (conv_writes_next_version), to leave every top-level key outside a stated per-converter set untouched (conv_frame; request/id/type/error/intercepted never change: request_preserved; response only by 13->14), plus marked_migration, mode_dropped, proxy_mode_added, state_dropped, timestamp_created_from_request; 18->19 (renames, defaults, the UTF-8/backslashreplace decode of host bytes built on the C35 decoder transcription, sni=True repair) with conv_18_19_spec, client_frame_18_19/client_renames_18_19, server_frame_18_19/server_renames_18_19, host_decode_valid_utf8/host_decode_ascii (a valid-UTF-8 host is the same text afterwards) and host_decode_escape; the whole modelled chain 12->21 keeps the request and arrives at version 21 (steps_request_preserved by induction over any number of converter steps, chain_request_preserved); each step of the real converters is compared byte for byte (re-encoded tnetstring) with the Lean converter. Whole-chain behaviour is validated differentially: all shipped historical dumps, "
+                  "integers. The field surgery of the sixteen converters for integer formats 5..20 is modelled over the tnetstring value type of C36 (Model/C38_Conv.lean) and proved to write exactly the next version (conv_writes_next_version), to leave every top-level key outside a stated per-converter set untouched (conv_frame; request/id/type/error/intercepted never change: request_preserved; response only by 13->14), plus marked_migration, mode_dropped, proxy_mode_added, state_dropped, timestamp_created_from_request; the older formats 5..9 (convOld: ssl->tls renames, tls_extensions, trailers, first_line_format/authority/is_replay, the 9->10 connection rebuild incl. the nested via connection) with convOld_writes_next_version, convOld_frame, old_identity_preserved, old_request_preserved (only 7->8 and 8->9 touch the request), request_fields_8_9, trailers_added_7_8, tls_renamed_5_6; 18->19 (renames, defaults, the UTF-8/backslashreplace decode of host bytes built on the C35 decoder transcription, sni=True repair) with conv_18_19_spec, client_frame_18_19/client_renames_18_19, server_frame_18_19/server_renames_18_19, host_decode_valid_utf8/host_decode_ascii (a valid-UTF-8 host is the same text afterwards) and host_decode_escape; the whole modelled chain 12->21 keeps the request and arrives at version 21 (steps_request_preserved by induction over any number of converter steps, chain_request_preserved); each step of the real converters is compared byte for byte (re-encoded tnetstring) with the Lean converter. Whole-chain behaviour is validated differentially: all shipped historical dumps, "
                   "synthetic states downgraded by inverse converters to each version 10..20, current states, and unknown "
                   "future versions go through the real migrate_flow / FlowReader / FlowWriter.")
-    level_note = ("partial: proved are the version chain, the loop and the per-converter field facts for formats 10..20 (11->12 "
+    level_note = ("partial: proved are the version chain, the loop and the per-converter field facts for formats 5..20 (4->5 draws uuids and keeps process-global tables: not modelled; 11->12 "
                   "only without websocket metadata; 13->14 timestamp repair only for integer timestamps); tuple-version converters "
                   "and the websocket branches of 11->12 are validated only (goldens for shipped dumps, inverse-converter "
                   "round trips for versions 10..20). "
@@ -435,8 +473,9 @@ class Check(PropertyCheck):
         st = restrict_for(canon_out(case["state"]), v)
         old = mflow.Flow.from_state(copy.deepcopy(st)).get_state()
         for u in range(version.FLOW_FORMAT_VERSION, v, -1):
-            if u not in INVERSES: raise Skip()
-            INVERSES[u](old)
+            inv = INVERSES.get(u) or SHAPE_INVERSES.get(u)
+            if inv is None: raise Skip()
+            inv(old)
         assert old["version"] == v
         if case.get("mode") is not None and "mode" in old: old["mode"] = case["mode"]
         t = case.get("tweak")
@@ -464,6 +503,30 @@ class Check(PropertyCheck):
             if t != "host-bytes":
                 if not sc.get("address"): raise Skip()
                 sc["sni"] = True
+        elif t == "via-conn":
+            via = copy.deepcopy(old["server_conn"]); via["via"] = None
+            old["server_conn"]["via"] = via
+        elif t == "no-ssl":
+            old["server_conn"].pop("ssl_established", None)
+        elif t == "resp-none": old["response"] = None
+        elif t == "req-int": old["request"] = 7
+        elif t == "req-replay":
+            if not old.get("request"): raise Skip()
+            old["request"]["is_replay"] = True
+        elif t == "resp-replay":
+            if not old.get("response"): raise Skip()
+            old["response"]["is_replay"] = True
+        elif t == "both-replay":
+            if not old.get("response") or not old.get("request"): raise Skip()
+            old["response"]["is_replay"] = True; old["request"]["is_replay"] = True
+        elif t == "no-flf":
+            if not old.get("request"): raise Skip()
+            old["request"].pop("first_line_format", None)
+        elif t == "no-clientcert": old["client_conn"].pop("clientcert", None)
+        elif t == "alpn-none":
+            old["client_conn"]["alpn_proto_negotiated"] = None; old["server_conn"]["alpn_proto_negotiated"] = b""
+        elif t == "cipher-set":
+            old["client_conn"]["cipher_name"] = "TLS_AES_128_GCM_SHA256"; old["server_conn"]["cipher_name"] = "X"
         elif t == "ts-none":
             old["client_conn"]["timestamp_start"] = None
         elif t == "no-transport":
@@ -529,10 +592,12 @@ class Check(PropertyCheck):
             elif obs.get("resave") != "ok": fails.append(f"flow migrated from v{case['to']} cannot be re-saved and re-loaded to the same state: {obs['resave']}")
         elif k == "conv":
             # the facts proved of the modelled converters (conv_writes_next_version, request_preserved), asked of the real ones
-            if obs["out"] is None: fails.append(f"converter {case['v']} raised on a state of its own format: {obs['exc']}")
+            if obs["out"] is None:
+                # deliberately malformed states (a field the format requires is missing / of the wrong type) only feed the model tie
+                if case.get("tweak") not in MALFORMED_TWEAKS: fails.append(f"converter {case['v']} raised on a state of its own format: {obs['exc']}")
             else:
                 if obs["version"] != case["v"] + 1: fails.append(f"converter {case['v']} wrote version {obs['version']}")
-                if not obs["request_same"]: fails.append(f"converter {case['v']} changed the request")
+                if not obs["request_same"] and case["v"] not in (7, 8): fails.append(f"converter {case['v']} changed the request")
                 if not obs["untouched_same"]: fails.append(f"converter {case['v']} changed id/type/error/intercepted")
                 # 18→19: a host name an old release stored as bytes is that text afterwards (host_decode_valid_utf8), an
                 # undecodable byte is spelled \\xNN (host_decode_escape) — expectation computed from the input bytes alone
@@ -632,8 +697,11 @@ class Check(PropertyCheck):
 # values old releases stored in the top-level "mode" of a flow (their `mode` option as typed)
 OLD_MODES = ["regular", "transparent", "upstream", "socks5", "reverse", "upstream:http://proxy.example:8080", "reverse:https://example.com",
              "reverse:http://127.0.0.1:8000", "dummy", ""]
-CONV_MODELLED = [10, 11, 12, 13, 14, 15, 16, 17, 18, 18, 19, 20]
-CONV_TWEAKS = {10: ["sni-bytes", "sni-bytes", "sni-none", "empty-lists"], 12: ["marked-true", "marked-false"], 13: ["ts-null", "ts-null"],
+CONV_MODELLED = [5, 6, 7, 8, 8, 9, 9, 10, 11, 12, 13, 14, 15, 16, 17, 18, 18, 19, 20]
+MALFORMED_TWEAKS = {"no-ssl", "no-flf", "req-int"}
+CONV_TWEAKS = {5: ["via-conn", "no-ssl"], 7: ["resp-none", "no-request", "req-int"], 8: ["req-replay", "resp-replay", "both-replay", "no-request", "resp-none", "no-flf"],
+               9: ["via-conn", "no-clientcert", "alpn-none", "cipher-set"],
+               10: ["sni-bytes", "sni-bytes", "sni-none", "empty-lists"], 12: ["marked-true", "marked-false"], 13: ["ts-null", "ts-null"],
                15: ["no-request"], 18: ["host-bytes", "host-bytes", "host-bytes", "sni-true", "sni-true-bytes", "ts-none", "no-transport", "no-cipher-name"],
                20: ["quic", "quic-server"]}
 def ref_backslash_utf8(b):
